@@ -128,7 +128,9 @@ def run(ctx):
     st = sl.collections.Counter()
     behs, nrows = [], 0
     for rnd in range(4):     # top-up rounds until every action kind is covered
-        new = sl.sim(ctx, "Subscription_sim.cfg", num=n, depth=14, tag="sim%d" % rnd, seed=ctx.seed + 7919 * rnd)[:ctx.pick(240, 1400)]
+        sd = ctx.seed + 7919 * rnd
+        new = (sl.sim(ctx, "Subscription_sim.cfg", num=n * 2 // 3, depth=14, tag="sim%d" % rnd, seed=sd)[:ctx.pick(170, 1000)]
+               + sl.sim(ctx, "Subscription_simf.cfg", num=n // 3, depth=14, tag="simf%d" % rnd, seed=sd)[:ctx.pick(90, 500)])
         if rnd == 0:
             new = cands + new
             ctx.sample(new[0])
